@@ -21,7 +21,7 @@ def h2_batch(ctx, pres):
         s = '<<' + ', '.join('<<%d, %d>>' % (a, b) for a, b in p['settings']) + '>>'
         pr = '<<' + ', '.join('<<%d, %d, %d, %d>>' % tuple(x) for x in (p.get('prios') or [])) + '>>'
         h = '<<' + ', '.join('"%s"' % c for c in p['order']) + '>>'
-        rows.append('Marshal(%s, %d, %s, %s, 1000000)' % (s, p['wu'], pr, h))
+        rows.append('Marshal(%s, %d, %s, %s, %d)' % (s, p['wu'], pr, h, p.get('n', 1000000)))
     open(os.path.join(d, 'BatchH2.tla'), 'w').write('---- MODULE BatchH2 ----\nEXTENDS H2FpOps\nR == <<' + ',\n  '.join(rows) + '>>\n'
                                                      'ASSUME \\A i \\in 1..Len(R) : PrintT(<<"H2", i, R[i]>>)\n====\n')
     open(os.path.join(d, 'BatchH2.cfg'), 'w').write('\n')
